@@ -4,6 +4,7 @@
 //	LEX <hexsrc>
 //	FMT <hexcfg> <hextext> <maxWidth> <overlap> <hexfontid> <numLines>
 //	COMPILE <hexcfg> <hexsrc>
+//	PARSE <hexcfg> <hexsrc>      (canonical dump of the AST, see astdump.go)
 //
 // Panics are recovered per case (PANIC), a case running longer than the watchdog limit is
 // reported as HANG.
@@ -204,6 +205,8 @@ func runCase(line string) (res string) {
 		return fmtCase(f)
 	case len(f) == 3 && f[0] == "COMPILE":
 		return compileCase(f)
+	case len(f) == 3 && f[0] == "PARSE":
+		return parseCase(f)
 	}
 	return "BADLINE"
 }
